@@ -276,6 +276,11 @@ func monitor(w *world, op Op, r result, b, a *snap) (out []finding) {
 		if f := custodyInvariance(w, op, t); f != nil {
 			out = append(out, *f)
 		}
+		// ... and neither does taking a voter's derivatives out of its savings deposit (withdrawals
+		// are open whatever the savings parameters say)
+		if f := custodyInvarianceOut(w, op, t); f != nil {
+			out = append(out, *f)
+		}
 	}
 	return
 }
@@ -316,14 +321,16 @@ func custodyInvariance(w *world, op Op, base *tallyOut) *finding {
 			if !bal.Amount.IsPositive() || !w.lk.IsDerivativeDenom(cctx, bal.Denom) {
 				continue
 			}
-			var err error
-			if (k+i)%2 == 0 {
-				err = w.tApp.GetSavingsKeeper().Deposit(cctx, w.addrs[v.Voter], sdk.NewCoins(bal))
-			} else {
+			// a refused deposit leaves nothing behind (while "bkava" is not a supported savings
+			// denom both are refused, earn only after it has moved the coins)
+			cls, _ := Atomically(cctx, func(ctx sdk.Context) error {
+				if (k+i)%2 == 0 {
+					return w.tApp.GetSavingsKeeper().Deposit(ctx, w.addrs[v.Voter], sdk.NewCoins(bal))
+				}
 				ek := w.tApp.GetEarnKeeper()
-				err = ek.Deposit(cctx, w.addrs[v.Voter], bal, 2) // STRATEGY_TYPE_SAVINGS
-			}
-			if err == nil {
+				return ek.Deposit(ctx, w.addrs[v.Voter], bal, 2) // STRATEGY_TYPE_SAVINGS
+			})
+			if cls == ClassOk {
 				moved = true
 			}
 		}
@@ -339,6 +346,43 @@ func custodyInvariance(w *world, op Op, base *tallyOut) *finding {
 	if t.Yes.Cmp(base.Yes) != 0 || t.No.Cmp(base.No) != 0 || t.Abstain.Cmp(base.Abstain) != 0 || t.Veto.Cmp(base.Veto) != 0 || t.Passes != base.Passes || t.Burn != base.Burn {
 		return &finding{"counted-once-wherever-held", "tally-differs-by-custody",
 			fmt.Sprintf("wallet: %s/%s/%s/%s  savings+earn: %s/%s/%s/%s", base.Yes, base.Abstain, base.No, base.Veto, t.Yes, t.Abstain, t.No, t.Veto)}
+	}
+	return nil
+}
+
+// custodyInvarianceOut: every voter withdraws the derivatives of its savings deposit into its wallet
+// (on a discarded branch); the same votes must give the same result
+func custodyInvarianceOut(w *world, op Op, base *tallyOut) *finding {
+	cctx, _ := w.ctx.CacheContext()
+	svk := w.tApp.GetSavingsKeeper()
+	moved := false
+	for _, v := range op.Votes {
+		dep, found := svk.GetDeposit(cctx, w.addrs[v.Voter])
+		if !found {
+			continue
+		}
+		for _, c := range dep.Amount {
+			if !c.Amount.IsPositive() || !w.lk.IsDerivativeDenom(cctx, c.Denom) {
+				continue
+			}
+			if cls, _ := Atomically(cctx, func(ctx sdk.Context) error {
+				return svk.Withdraw(ctx, w.addrs[v.Voter], sdk.NewCoins(c))
+			}); cls == ClassOk {
+				moved = true
+			}
+		}
+	}
+	if !moved {
+		return nil
+	}
+	r := w.execTally(cctx, op.Votes)
+	if r.cls != ClassOk {
+		return &finding{"counted-once-wherever-held", "tally-differs-by-custody", fmt.Sprintf("tally after withdrawing derivatives from savings: %v", r.err)}
+	}
+	t := r.tally
+	if t.Yes.Cmp(base.Yes) != 0 || t.No.Cmp(base.No) != 0 || t.Abstain.Cmp(base.Abstain) != 0 || t.Veto.Cmp(base.Veto) != 0 || t.Passes != base.Passes || t.Burn != base.Burn {
+		return &finding{"counted-once-wherever-held", "tally-differs-by-custody",
+			fmt.Sprintf("in savings: %s/%s/%s/%s  withdrawn to the wallet: %s/%s/%s/%s", base.Yes, base.Abstain, base.No, base.Veto, t.Yes, t.Abstain, t.No, t.Veto)}
 	}
 	return nil
 }
